@@ -197,3 +197,52 @@ func deepSnap(fs afero.Fs) string {
 	}
 	return b.String()
 }
+
+// memLeaves: the targets ("0", "10", ...) of the MemMapFs leaves of a stack description
+func memLeaves(stack string) []string {
+	var out []string
+	var walk func(l *Layer, tgt string)
+	walk = func(l *Layer, tgt string) {
+		if l.Kind == "mem" {
+			if tgt == "" {
+				tgt = "."
+			}
+			out = append(out, tgt)
+			return
+		}
+		for i, k := range l.Kids {
+			walk(k, tgt+fmt.Sprint(i))
+		}
+	}
+	walk(parseStack(stack), "")
+	return out
+}
+
+// mixedStackCases: model-vs-implementation correspondence on wrappers stacked on wrappers (every
+// leaf filled separately with a well-formed program, then unconstrained calls through the top).
+// No oracle of a single property applies to such stacks; what is compared is the transcription.
+func mixedStackCases(c *Ctx, stacks []string, n int, idPrefix string) {
+	for i := 0; i < n; i++ {
+		r := c.Rng.Fork()
+		stack := stacks[i%len(stacks)]
+		var items, paths []string
+		slot := 0
+		for _, leaf := range memLeaves(stack) {
+			it, ps, next := populate(r.Fork(), leaf, r.Range(3, 14), slot)
+			items = append(items, it...)
+			paths = append(paths, ps...)
+			slot = next
+		}
+		w := &WrapGen{r: r, Paths: paths, Next: slot, Tgt: ".", NoPaging: strings.Contains(stack, "cow") || strings.Contains(stack, "cache")}
+		for k := r.Range(4, 25); k > 0; k-- {
+			w.Step()
+		}
+		items = append(items, w.Items...)
+		for _, leaf := range memLeaves(stack) {
+			items = append(items, "snap "+leaf)
+		}
+		RunCase(c, fmt.Sprintf("%s%d", idPrefix, i), stack, items)
+		c.Count("mixed-stack." + stack)
+	}
+	c.Extra["mixed_stacks"] = fmt.Sprintf("%d unconstrained cases over %v (model correspondence only)", n, stacks)
+}
